@@ -70,6 +70,30 @@ class GitStore__import_one:
                 and self.ghost_M == old(self.ghost_M).put(name, result.decode("ascii")))
 
 
+@contract("xandikos.store.git.GitStore._import_one", variant="metadata", when={"name": ".xandikos"},
+          params={"self": "obj:xandikos.store.git.GitStore", "name": "str", "data": "opaque:Chunks",
+                  "message": "str", "author": "opt[str]"},
+          returns="bytes", modifies=["self.ghost_cfg"])
+class GitStore__import_one_metadata:
+    """Interface contract for the collection's own metadata file (refined by
+    BareGitStore._import_one@metadata / TreeGitStore._import_one@metadata): it becomes the
+    metadata entry; no member changes."""
+
+    def requires(self, name):
+        return name == ".xandikos"
+
+    def raises_LockedError(self):
+        return self.ghost_locked
+
+    def ensures(self, name, data, result):
+        return (result == blob_id(data)
+                and in_store(self.repo.object_store, result)
+                # content addressing: the object now stored under that id holds these bytes
+                and b"".join(blob_of(result).chunked) == b"".join(data)
+                and self.ghost_cfg == result.decode("ascii")
+                and self.ghost_M == old(self.ghost_M))
+
+
 @contract("xandikos.store.Store.get_file",
           params={"self": "obj:xandikos.store.git.GitStore", "name": "str", "content_type": "opt[str]",
                   "etag": "opt[str]"},
